@@ -55,9 +55,12 @@ HELPERS = {
         "if num_labels > 0:\n    return [f'{base_name}__{i}' for i in range(num_labels)]\n"
         "msg = f'Compound {base_name} must have labels'\nraise ValueError(msg)"]),
     "_unpack_stoichiometries": ("stoichiometries: Mapping[str, float | Derived]", [
+        # after "fix: LinearLabelMapper refuses a fractional stoichiometric coefficient ...": int() first, fractional refused
         "substrates = {}\nproducts = {}\nfor k, v in stoichiometries.items():\n    if isinstance(v, Derived):\n"
-        "        raise NotImplementedError\n    if v < 0:\n        substrates[k] = int(-v)\n    else:\n"
-        "        products[k] = int(v)\nreturn (substrates, products)"]),
+        "        raise NotImplementedError\n    n = int(v)\n    if n != v:\n"
+        "        msg = f'Stoichiometric coefficient of {k} must be a whole number, got {v}'\n"
+        "        raise ValueError(msg)\n    if n < 0:\n        substrates[k] = -n\n    else:\n"
+        "        products[k] = n\nreturn (substrates, products)"]),
     "_stoichiometry_to_duplicate_list": ("stoichiometry: dict[str, int]", [
         "long_form: list[str] = []\nfor k, v in stoichiometry.items():\n    long_form.extend([k] * v)\nreturn long_form"]),
     "_add_label_influx_or_efflux": ("substrates: list[str], products: list[str], labelmap: list[int]", [
